@@ -181,4 +181,18 @@ def seenOk (c : Consts) (s0 : Nat) : Ev → Bool
 def holds (c : Consts) (s0 : Nat) (evs : List Ev) : Bool :=
   evs.all (fun e => evOk c s0 e && seenOk c s0 e)
 
+/-- blocks at which an event says attempt `n` times out -/
+def timeoutsOf : Ev → Option (Nat × Nat)
+  | .listen n to _ => some (n, to)
+  | .attempt n _ to _ _ => some (n, to)
+  | _ => none
+
+/-- Non-overlap on the observed blocks alone: a later attempt `n'` starts (its announcement wait
+    block minus the announcement delay) only after every earlier attempt's timeout block. -/
+def noOverlap (c : Consts) (evs : List Ev) : Bool :=
+  evs.all fun e =>
+    match e with
+    | .wait n' b => (evs.filterMap timeoutsOf).all fun p => decide (n' ≤ p.1) || decide (p.2 + c.delay < b)
+    | _ => true
+
 end KeepVerif.C11
